@@ -233,7 +233,7 @@ func TestAccounting(t *testing.T) {
 			switch {
 			case op <= 1: // Entry
 				res := rapid.SampledFrom([]string{"a", "b", "c"}).Draw(t, "res")
-				batch := uint32(rapid.IntRange(1, 5).Draw(t, "batch"))
+				batch := uint32(rapid.IntRange(0, 5).Draw(t, "batch")) // 0 tokens is a legal acquire count: the entry still occupies one unit of concurrency
 				inbound := rapid.Bool().Draw(t, "inbound")
 				args, unhashable := drawArgs(t, !custom && res != "b")
 				if unhashable && exP1 {
